@@ -92,6 +92,10 @@ def expression_cases(tier):
     for v in (3, 70000):
         cases.append(("bin", "*", ("cast", "long", L("int", v)), L("int", 2000000000)))
         cases.append(("bin", "*", ("un", "-", L("long", v)), L("int", 2000000000)))
+    # comparison results in concatenation
+    for s0 in VALS["string"][:2]:
+        cases.append(("bin", "+", L("string", s0), ("bin", "<", L("int", 1), L("int", 2))))
+        cases.append(("bin", "+", ("bin", "==", L("int", 1), L("int", 2)), L("string", s0)))
     # two-level nestings over a reduced value set
     small = {"int": [-1, 2, 5], "long": [2, 5000000000], "float": [0.5, 2.0]}
     ops2 = ARITH + (CMP if tier == "thorough" else ["<", "=="])
@@ -193,6 +197,11 @@ HELPERS = [
                                            [("for", ("decl", "int", "j", L("int", 0)), ("bin", "<", ("var", "j"), L("int", 3)), ("assignx", "j", ("call", "step", [("var", "j")])),
                                              [("if", ("bin", "==", ("bin", "+", ("bin", "*", I, L("int", 3)), ("var", "j")), ("var", "n")), [("ret", ("bin", "+", ("bin", "*", I, L("int", 100)), ("var", "j")))], None)])]),
                                       ("ret", ("un", "-", L("int", 5)))]),
+    # an int entering a slot declared long (parameter, result, local) is a long from then on: squares of 100000 need 64 bits
+    ("sq", [("long", "n")], "long", [("ret", ("bin", "*", ("var", "n"), ("var", "n")))]),
+    ("big", [], "long", [("ret", L("int", 100000))]),
+    ("lsq", [("int", "n")], "long", [("decl", "long", "w", ("bin", "+", ("var", "n"), L("int", 99990))), ("assign", "w", ("bin", "*", ("var", "w"), ("var", "w"))),
+                                     ("decl", "long", "u", L("int", 5)), ("assign", "u", ("bin", "+", ("var", "n"), L("int", 70000))), ("ret", ("bin", "+", ("var", "w"), ("bin", "*", ("var", "u"), ("var", "u"))))]),
     ("half", [("int", "n")], "float", [("ret", ("bin", "/", ("var", "n"), L("int", 2)))]),
     ("wide", [("long", "n")], "long", [("ret", ("bin", "*", ("var", "n"), L("long", 3)))]),
 ]
@@ -224,6 +233,12 @@ ATOMS = [
     ("assign", "y", ("call", "cfind", [X])),
     ("assign", "x", ("call", "lastidx", [("var", "a")])),
     ("assign", "y", ("call", "wfind", [X])),
+    ("echo", ("call", "sq", [("bin", "+", X, L("int", 100000))])),
+    ("echo", ("bin", "*", ("call", "big", []), ("call", "big", []))),
+    ("echo", ("call", "lsq", [X])),
+    # an index that only fits 64 bits is out of bounds, not position 0
+    ("assign", "x", ("idx", "a", ("bin", "+", L("long", 4294967296), Y))),
+    ("aassign", "a", ("bin", "+", L("long", 4294967296), L("long", 1)), X),
     ("assign", "x", ("call", "nfind", [Y])),
 ]
 
